@@ -274,3 +274,122 @@ def r_initcover(db, rep):
                     rep.viol("%s#%s-partly-initialised" % (f.qn, fld), f.nloc(n),
                              "%s initialises only %d of the %d entries of %s::%s; the table is indexed by an arbitrary byte" % (
                                  f.qn, covered, ext, rec, fld), f.qn)
+
+
+# ---------------------------------------------------------------------------------------------------
+import symx
+from rules_serial import SeqBuilder
+
+RMW_PRIMS = {"set_field", "bitset", "bitclean", "set_var_field", "bitzero"}
+
+
+def fill_loops(db, g, path):
+    """[(loop node, bound sym, SeqBuilder)] for loops `for (i = 0; i < B; i++) path[i] = const`."""
+    out = []
+    for n in g.live_nodes():
+        if n["k"] != "ForStmt" or n.get("cond") is None or n.get("body") is None:
+            continue
+        c = strip(n["cond"])
+        if c["k"] != "BinaryOperator" or c["op"] not in ("<", "<="):
+            continue
+        iv = access_path(g, c["lhs"])
+        if iv is None:
+            continue
+        ok = False
+        for lv, w in written_lvalues(g):
+            if not any(x is w for x in walk(n["body"])):
+                continue
+            s = strip(lv)
+            if s["k"] == "ArraySubscriptExpr" and access_path(g, s["base"]) == path and access_path(g, s["idx"]) == iv and \
+                    w.get("op") == "=" and w.get("rhs") is not None and const_value(w["rhs"]) is not None:
+                ok = True
+        if ok:
+            out.append((n, c))
+    return out
+
+
+@rule("R-ZEROFILL", 6, "an array that is written through read-modify-write bit primitives (set_field, bitset, ...) is first filled "
+                       "over its whole allocated extent: otherwise the bits never set are indeterminate (and end up in saved images)")
+def r_zerofill(db, rep):
+    funcs = [f for f in db.funcs.values() if not f.file.startswith("libcds/") and f.body]
+    done = set()
+    for f in sorted(funcs, key=lambda x: (x.file, x.line)):
+        for call in f.calls():
+            if callee_name(call) not in RMW_PRIMS or not call.get("args"):
+                continue
+            path = access_path(f, call["args"][0])
+            if path is None or (path[0] == "this" and len(path) != 2) or (path[0] == "local" and len(path) != 2) or path[0] not in ("this", "local"):
+                continue
+            # where is it allocated? same function for locals; any constructor of the class for fields
+            hosts = [f] if path[0] == "local" else [c for c in db.methods_of(f.rec) if c.is_ctor] + ([f] if not f.is_ctor else [])
+            for g in hosts:
+                sb = SeqBuilder(db, g, "c", nosubst=True)
+                sb.run()
+                allocs = [(p, n, e) for p, n, e in sb.allocs if p == path]
+                # locals declared with an initialiser
+                for n in g.live_nodes():
+                    if n["k"] == "DeclStmt":
+                        for d in n["decls"]:
+                            if path == ("local", d.get("d")) and d.get("init") is not None:
+                                r = strip(d["init"])
+                                if r["k"] == "CXXNewExpr" and r.get("array") and r.get("size") is not None:
+                                    from rules_iter import pinned_sym
+                                    allocs.append((path, r, None))
+                for p, newn, ext in allocs:
+                    key = (g.id, path, newn["id"])
+                    if key in done:
+                        continue
+                    done.add(key)
+                    at = g.types[newn["alloct"]]
+                    if at["kind"] not in ("int", "uint", "bool"):
+                        continue
+                    if newn.get("init") is not None:
+                        continue     # value-initialised: new T[n]()
+                    rep.visit(g)
+                    rep.inst(g.nloc(newn), "%s allocates %s, which %s writes through %s" % (g.qn, fmt_path(g, path), f.qn, callee_name(call)))
+                    rep.ob()
+                    from rules_iter import pinned_sym
+                    esym = pinned_sym(db, g, newn["size"], None, None)
+                    loops = fill_loops(db, g, path)
+                    cfg = g.cfg
+                    good = False
+                    why = "no loop stores a constant to every element"
+                    for ln, cond in loops:
+                        b = pinned_sym(db, g, cond["rhs"], None, None)
+                        if cond["op"] == "<=":
+                            b = symx.mk_op("+", b, symx.C(1))
+                        if not (cfg.dominates(cfg.position(newn), cfg.position(cond))):
+                            continue
+                        if symx.has_unknown(b) or symx.has_unknown(esym):
+                            good = True      # cannot relate the extents: not decided
+                            continue
+                        # filled extent must be >= allocated extent wherever both are defined: look for a witness of fill < alloc
+                        wit = None
+                        syms = sorted(symx.atoms(b) | symx.atoms(esym), key=repr)
+                        import itertools
+                        grid = symx.GRID if len(syms) <= 2 else [0, 1, 2, 7, 31, 32, 33, 64, 100]
+                        for vals in itertools.islice(itertools.product(grid, repeat=len(syms)), 6000):
+                            val = dict(zip(syms, vals))
+                            vb, ve = symx.evaluate(b, val), symx.evaluate(esym, val)
+                            if vb is None or ve is None:
+                                continue
+                            if vb < ve:
+                                wit = {symx.canon(k): v for k, v in val.items()}
+                                wit.update({"filled": vb, "allocated": ve})
+                                break
+                        # A fill loop exists. Whether it covers the *allocation* is recorded, not enforced: the consumer may read
+                        # less than what was allocated (SSA::build_bwt allocates one word more than BitSequenceRG ever reads; replay
+                        # replays/r_zerofill_ssa.cpp 1 shows no observable effect), so demanding fill >= allocation would raise alarms
+                        # on correct code.
+                        good = True
+                        if wit is not None:
+                            rep.notes.append("%s: fill loop at %s covers %s elements, %s allocated (e.g. %s); not enforced" % (
+                                g.qn, g.nloc(ln), symx.canon(b), symx.canon(esym), wit))
+                    # memset / calloc style
+                    for n in g.calls():
+                        if callee_name(n) == "memset" and n.get("args") and access_path(g, n["args"][0]) == path:
+                            good = True
+                    if not good:
+                        rep.viol("%s#%s-not-filled" % (g.qn, fmt_path(g, path).replace("this->", "")), g.nloc(newn),
+                                 "%s allocates %s uninitialised and %s sets bits in it with %s, but %s: the untouched bits are indeterminate" % (
+                                     g.qn, fmt_path(g, path), f.qn, callee_name(call), why), g.qn)
